@@ -164,6 +164,8 @@ def texts_for(tname, tier, rng):
         for m in ("taxpayer", "spouse", "both"):
             out += [m, " " + m + " ", m.upper(), m.capitalize(), m[:-1], m + "s", m + " x", m.replace("s", "5"), "\t" + m, m + "\xa0", m[0], '"%s"' % m, m + "\n"]
         out += ["", " ", "none", "None", "taxpayer,spouse", "taxpayer spouse", "b0th", "ｂoth"]
+        # names that mean something on an enumeration CLASS without being one of its options
+        out += ["mro", "name", "value", "__members__", "__doc__", "__module__", "__name__", "__class__", "_member_names_", "_member_map_", "__len__", "__init__"]
     elif tname == "ssn":
         out += ["123-45-6789", "123456789", " 123-45-6789 ", "12-345-6789", "1-2-3-4-5-6-7-8-9", "---123456789", "123-45-678", "123-45-67890", "12345678", "1234567890",
                 "123-45-678a", "123 45 6789", "", "-", "٣23-45-6789", "١٢٣٤٥٦٧٨٩", "123-45-6789-", "abc-de-fghi", "123‑45‑6789"]
